@@ -219,6 +219,7 @@ class Net:
         self.max_spins = 0
         self.taps = []                    # callables(src_idx, frame) observing the bus
         self.rx_taps = []                 # callables(dst_idx, can_id, data) observing what a stack actually receives
+        self.actions = []                 # scheduled application actions: (time, seqno, callable)
         for s in world.stacks:
             self.attach(s)
 
@@ -269,8 +270,17 @@ class Net:
         if s.wq.tokens > 0 and not s.dead:
             self.wake[s.idx] = self.w.now if self.wake[s.idx] is None else min(self.wake[s.idx], self.w.now)
 
+    def at(self, t, fn):
+        """schedule an application action (runs between frame deliveries and passes, like another thread would)"""
+        self.seq += 1
+        self.actions.append((int(t), self.seq, fn))
+        self.actions.sort(key=lambda a: a[:2])
+
     def next_event(self):
         best = None
+        if self.actions:
+            a = self.actions[0]
+            best = ((a[0], 0, a[1]), 'act', None)
         for i, q in self.fifo.items():
             if q and (best is None or (q[0][0], 0, q[0][1]) < best[0]):
                 best = ((q[0][0], 0, q[0][1]), 'rx', i)
@@ -288,6 +298,12 @@ class Net:
         (t, _, _), kind, i = ev
         if t > self.w.now:
             self.w.clock.now = t
+        if kind == 'act':
+            _, _, fn = self.actions.pop(0)
+            fn()
+            for s in self.w.stacks:
+                self.poke(s)
+            return True
         s = self.w.stacks[i]
         if kind == 'rx':
             _, _, can_id, data = self.fifo[i].pop(0)
